@@ -99,12 +99,11 @@ RxAckRst(r, mid, ty, g) ==
 
 (* -- a response carrying the token of request q is read.  ty = "ACK" is a   *)
 (*    piggy-backed response under q's message ID --------------------------- *)
-RxResp(q, ty, g) ==
+RxRespM(q, ty, mid, g) ==
   /\ ~ended /\ q \in DOMAIN rq /\ g \in ATmin..ATmax
   \* the peer answers only what it has seen: no response to a request still held back
   /\ \A r2 \in DOMAIN backlog : \A i \in 1..Len(backlog[r2]) : backlog[r2][i] # q
   /\ LET r   == rq[q].r
-         mid == IF ty = "ACK" THEN rq[q].mid ELSE (rq[q].mid + 1) % MidSpace
          key == <<r, mid>>
          rx  == Ev("rx", now, r, ty, mid, q, FALSE, "resp")
          hit == ty = "ACK" /\ key \in DOMAIN exch
@@ -117,6 +116,22 @@ RxResp(q, ty, g) ==
         /\ Step(<<rx>> \o c[3] \o reply \o (IF live THEN DoneEvs(<<q>>, now, "resp") ELSE << >>))
   /\ budget > 0 /\ budget' = budget - 1
   /\ UNCHANGED <<now, nextMid, ended>>
+
+\* in the exhaustive model a piggy-backed response carries the request's ID, a separate one some other ID
+RxResp(q, ty, g) == RxRespM(q, ty, IF ty = "ACK" THEN rq[q].mid ELSE (rq[q].mid + 1) % MidSpace, g)
+
+(* -- a response whose token belongs to no request of this endpoint: CON -> RST, else silence -- *)
+RxUnknownResp(r, ty, mid, g) ==
+  /\ ~ended /\ g \in ATmin..ATmax
+  /\ LET key == <<r, mid>>
+         rx  == Ev("rx", now, r, ty, mid, 0, FALSE, "resp")
+         hit == ty = "ACK" /\ key \in DOMAIN exch
+         c   == IF hit THEN Continue(Drop(exch, {key}), backlog, r, g, rq) ELSE <<exch, backlog, << >>>>
+         reply == IF ty = "CON" THEN <<Ev("tx", now, r, "RST", mid, 0, FALSE, "empty")>> ELSE << >>
+     IN /\ exch' = c[1] /\ backlog' = c[2]
+        /\ Step(<<rx>> \o c[3] \o reply)
+  /\ budget > 0 /\ budget' = budget - 1
+  /\ UNCHANGED <<now, nextMid, rq, ended>>
 
 (* -- retransmission timer (_retransmit) ------------------------------------ *)
 Timer(key) ==
